@@ -32,11 +32,14 @@ var c17Ops = []string{
 	"ValidateEncodedLogoutRequestPOST", "ValidateEncodedLogoutResponsePOST", "DecodeUnverifiedBaseResponse",
 	"Metadata", "MetadataWithSLO", "GetSigningCertBytes",
 	"SignLogoutRequest(held)", "SignLogoutResponse(held)", "SignAuthnRequest(held)",
+	// the exported Validate on a decoded Response that several callers hold (one ACS offering a message to
+	// each configured SP in turn): acceptable / refused
+	"Validate(decoded)", "Validate(decoded,refused)",
 }
 
 // operations whose results do not depend on the time of the call (usable when the SP has no
 // injected clock and reads real time)
-var c17TimelessOps = []int{12, 13, 14, 15, 16, 17, 18, 19, 20, 21, 24}
+var c17TimelessOps = []int{12, 13, 14, 15, 16, 17, 18, 19, 20, 21, 24, 28, 29}
 
 func init() {
 	register(&Prop{
@@ -47,7 +50,7 @@ func init() {
 			"oracles: race detector log did not grow, every result equals the solo re-execution of its task on an identical fresh SP, configuration snapshot and arguments unchanged, results scribbled over after return do not affect later results, no deadlock; distinct = context-switch sequences (hash of switch points with yield sites) x workload",
 		Directed:   c17Directed,
 		Run:        c17Run,
-		MustHit:    []string{"strategy=random-walk", "strategy=pct", "strategy=round-robin-fine", "preemption", "two_first_signers", "op=Metadata", "op=RetrieveAssertionInfo", "second_instance", "non_default_algorithm", "sp_without_clock", "op=SignLogoutResponse(held)"},
+		MustHit:    []string{"strategy=random-walk", "strategy=pct", "strategy=round-robin-fine", "preemption", "two_first_signers", "op=Metadata", "op=RetrieveAssertionInfo", "second_instance", "non_default_algorithm", "sp_without_clock", "op=SignLogoutResponse(held)", "op=Validate(decoded,refused)"},
 		RandomRuns: map[string]int{"quick": 600, "thorough": 12000},
 		Assumptions: []string{"data-race freedom is shown for the executed schedules of the generated workloads",
 			"channel operations, select, x.Wait() statements and go statements of the library are modelled; blocking inside uninstrumented dependencies is not (a watchdog turns a task that never yields into a harness error, exit 2)",
@@ -98,6 +101,7 @@ func c17Directed(tier string) [][]uint64 {
 
 type c17Env struct {
 	msgs    map[string]string
+	decoded map[string]*types.Response // decoded by the application, shared by the tasks
 	relay   string
 	results [][]string // per task: digests in order
 }
@@ -219,6 +223,20 @@ func c17Run(r *core.Run) {
 		raw, _ := decodeB64(env.msgs[kv[1]])
 		env.msgs[kv[0]] = world.B64(world.Deflate(raw, 6))
 	}
+	env.decoded = map[string]*types.Response{}
+	for _, key := range []string{"ok", "refused"} {
+		md := world.GenResponse(t, o.IdP, fed, now, 2, true)
+		if key == "refused" {
+			md.Assertions[1].Issuer = strp("https://somebody-else.example/meta")
+		}
+		x, err := o.IdP.Issue(md, world.Layout{}, r.Sim.Now())
+		dr := &types.Response{}
+		if err != nil || world.AppDecode(x, dr) != nil {
+			r.HarnessError("decoded response for %s: %v", key, err)
+			return
+		}
+		env.decoded[key] = dr
+	}
 	dm := []byte(env.msgs["response"])
 	dm[len(dm)/2] ^= 1
 	env.msgs["damaged"] = string(dm)
@@ -307,6 +325,24 @@ func c17Run(r *core.Run) {
 		// to a task's stream, so bit-for-bit comparison with a solo run is not defined for this run
 		r.Probe("library_goroutine_drew_entropy")
 		return
+	}
+	// (4) arguments untouched, an identical second call gives the identical result (checked inside the operations)
+	for i := range plans {
+		for k, d := range env.results[i] {
+			for _, marker := range []string{" ARGUMENT-MODIFIED", " SECOND-RESULT-DIFFERS"} {
+				// (the signing operations hand their element to the signature library, which with an exclusive
+				// canonicalizer re-orders attributes and moves namespace declarations of that element in place:
+				// an equivalent document, and not something the property speaks about - it names validation)
+				if marker == " ARGUMENT-MODIFIED" && !strings.HasPrefix(c17Ops[plans[i].ops[k]], "Validate") {
+					continue
+				}
+				if strings.Contains(d, marker) {
+					ctx["task"], ctx["op_index"], ctx["op"], ctx["result"] = i, k, c17Ops[plans[i].ops[k]], trunc(d, 1500)
+					r.Fail("purity", "C17/"+strings.ToLower(strings.TrimSpace(marker))+"/"+c17Ops[plans[i].ops[k]], ctx)
+					return
+				}
+			}
+		}
 	}
 	for i := range plans {
 		var fresh *saml2.SAMLServiceProvider
@@ -518,6 +554,7 @@ func c17Do(sp *saml2.SAMLServiceProvider, op string, env *c17Env, scribble bool)
 				return nil
 			}
 			digest = ser(el1)
+			first := digest
 			if scribble {
 				el1.CreateAttr("scribbled", "1")
 				var walk func(e *etree.Element)
@@ -538,7 +575,7 @@ func c17Do(sp *saml2.SAMLServiceProvider, op string, env *c17Env, scribble bool)
 			el2, err := sign(d.Root())
 			if err != nil {
 				digest += errStr(err)
-			} else if s2 := ser(el2); s2 != digest {
+			} else if s2 := ser(el2); s2 != first {
 				digest += " SECOND-RESULT-DIFFERS " + s2
 			}
 		case "SigningContext":
@@ -623,6 +660,17 @@ func c17Do(sp *saml2.SAMLServiceProvider, op string, env *c17Env, scribble bool)
 		case "GetSigningCertBytes":
 			c, err := sp.GetSigningCertBytes()
 			digest = hex.EncodeToString(c) + errStr(err)
+		case "Validate(decoded)", "Validate(decoded,refused)":
+			resp := env.decoded[map[bool]string{true: "refused", false: "ok"}[strings.HasSuffix(op, "refused)")]]
+			before := world.J(world.NormResponse(resp))
+			err := sp.Validate(resp)
+			digest = "validate:" + errStr(err)
+			if world.J(world.NormResponse(resp)) != before {
+				digest += " ARGUMENT-MODIFIED"
+			}
+			if err2 := sp.Validate(resp); errStr(err2) != errStr(err) {
+				digest += " SECOND-RESULT-DIFFERS " + errStr(err2)
+			}
 		}
 		return nil
 	})
